@@ -61,7 +61,10 @@ def wsdl_text(d) -> str:
         nsattr = f' namespace="{tns}"' if eff_style(d, o) == "rpc" else ""
         hdr = '<soap:header message="tns:AuthHeader" part="auth" use="literal"/>' if o["header"] else ""
         bflt = f'<fault name="{n}Fault"><soap:fault name="{n}Fault" use="literal"/></fault>' if o["fault"] else ""
-XX
+        body_ext = f'<soap:body use="literal"{nsattr}/>'
+        # both (valid) orders of the extension elements occur: header first for names of even length
+        inp = (hdr + body_ext) if len(n) % 2 == 0 else (body_ext + hdr)
+        bops.append(f'<operation name="{n}"><soap:operation soapAction="{o["action"]}"{style}/><input>{inp}</input>'
                     f'<output><soap:body use="literal"{nsattr}/></output>{bflt}</operation>')
     if any(o["header"] for o in d["ops"]):
         els.append('<xsd:element name="Auth"><xsd:complexType><xsd:sequence><xsd:element name="token" type="xsd:string"/></xsd:sequence></xsd:complexType></xsd:element>')
